@@ -100,7 +100,9 @@ def build_script(sd, idx, override_seed=None, policy=None, sibling=None):
         pol = "on_t_sample"
     ts = sorted(r.uniform(0, horizon) for _ in range(r.randint(1, 10))) + [horizon]
     ms = gen.mild_sys(r)
-    usys = (ms[0], ms[1] if not dyadic else "s", "molecule")
+    # (a third of the scripts count amounts in another unit than molecules - the stochastic engines work in molecules
+    # internally and hand the trajectory back in the script's unit)
+    usys = (ms[0], ms[1] if not dyadic else "s", "molecule" if r.random() < 0.65 else ms[2])
     # seeds: mostly random, but also the edge values of the documented range (0 is a valid explicit seed)
     sseed = (r.choice([0, 0, 1, 2 ** 31 - 1, 2 ** 31, 2 ** 32 - 1]) if r.random() < 0.3 else r.randrange(2 ** 32)) \
         if override_seed is None else override_seed
@@ -221,6 +223,10 @@ def run_variant(case):
             # or a sibling of the script under test (same shape, other configuration); or the very same script
             if hidx == "same":
                 d2, k2, s2, i2 = build_script(sd, idx)
+            elif hidx == "same object":
+                # the very script OBJECT under test, run earlier on an engine of any kind: a script is an input, running
+                # it leaves it what it was
+                d2, k2, s2, i2 = desc, r.choice(engines.KINDS), script, info
             elif isinstance(hidx, list):
                 d2, k2, s2, i2 = build_script(sd, idx, sibling=hidx[1])
             else:
@@ -454,7 +460,7 @@ def main():
             for v in range(nvar):
                 variants.append({"seed": sd, "idx": i, "variant": v, "mode": MODES[v % len(MODES)] if v < len(MODES) else rr.choice(MODES),
                                  "reuse": rr.random() < 0.5,
-                                 "history": [rr.choice([rr.randrange(nscripts) + 100000, rr.randrange(nscripts) + 100000, ["sib", rr.randrange(4)], "same"])
+                                 "history": [rr.choice([rr.randrange(nscripts) + 100000, rr.randrange(nscripts) + 100000, ["sib", rr.randrange(4)], "same", "same object"])
                                              for _ in range(rr.choice([0, 0, 1, 2, 3]))]})
         # scripts whose reference hit the harness iteration cap have nothing comparable: do not run their variants
         done_ok = {c["idx"] for c, r_ in zip(refs, ref_res) if r_["status"] == "ok" and r_["value"]["complete"]}
